@@ -725,6 +725,85 @@ end StrHash
 
 example : Fitness.eq (⟨[3, -4]⟩ : Fit Int) ⟨[3, -4]⟩ = true := by decide
 
+/-! ### The clone carries the weighted values themselves; a clone *rebuilt* through `values` does not
+
+`clone_bitwise` needs no arithmetic and no order on the scalars: it is the statement the IEEE-replay stream
+(`rclone`) checks bit for bit on the real objects for arbitrary finite non-zero weights.  `clone_no_recompute`
+says when a clone recomputed through the public values would still be the original: exactly when
+`(x / w) * w = x` for every weighted value — true in a field (`reclone_field`), false under binary64 rounding
+(`reclone_witness` for `/`, `recloneInv_witness` for cached inverse weights; `Fitness.R64` = correctly rounded
+`*` and `/` on the rationals that are doubles, cross-checked against the machine's `Float` by the driver). -/
+
+section CloneBitwise
+variable {α : Type} [LT α] [LE α] [DecidableEq α] [DecidableLT α] [DecidableLE α]
+
+theorem clone_bitwise (f : Fit α) : (deepcopy f).wvalues = f.wvalues ∧ deepcopy f = f := ⟨rfl, rfl⟩
+
+theorem cclone_bitwise (f : CFit α) :
+    (cdeepcopy f).wvalues = f.wvalues ∧ (cdeepcopy f).cv = f.cv := ⟨rfl, rfl⟩
+
+/-- What a clone rebuilt by `cls(self.values)` holds: every weighted value pushed through `/ w * w`. -/
+theorem reclone_wvalues [Mul α] [Div α] (weights : List α) (f : Fit α) (hl : f.wvalues.length = weights.length) :
+    reclone weights f = some ⟨List.zipWith (fun x w => x / w * w) f.wvalues weights⟩ := by
+  have h : (getValues weights f).length = weights.length := by simp [getValues, hl]
+  unfold reclone setValues
+  rw [if_pos h]
+  simp [getValues, zipWith_div_mul]
+
+/-- A clone recomputed through the public values is the original exactly when `(x / w) * w = x` for every
+weighted value and its weight — nothing the scalar arithmetic has to grant. -/
+theorem clone_no_recompute [Mul α] [Div α] (weights : List α) (f : Fit α) (hl : f.wvalues.length = weights.length) :
+    reclone weights f = some f ↔ ∀ p ∈ List.zip f.wvalues weights, p.1 / p.2 * p.2 = p.1 := by
+  rw [reclone_wvalues weights f hl, ← zipWith_eq_left_iff (fun x w => x / w * w) f.wvalues weights hl]
+  constructor
+  · intro h; exact congrArg Fit.wvalues (Option.some.inj h)
+  · intro h; cases f; simp_all
+
+example : (⟨[3, -4]⟩ : Fit Int).wvalues.length = ([1, -1] : List Int).length := rfl
+
+end CloneBitwise
+
+section CloneField
+variable {α : Type} [Field α] [LinearOrder α] [IsStrictOrderedRing α]
+
+/-- In exact arithmetic (any ordered field, non-zero weights) the recomputed clone *is* the original. -/
+theorem reclone_field (weights : List α) (f : Fit α) (hl : f.wvalues.length = weights.length)
+    (hnz : ∀ w ∈ weights, w ≠ 0) : reclone weights f = some f := by
+  rw [clone_no_recompute weights f hl]
+  intro p hp
+  exact div_mul_cancel₀ p.1 (hnz p.2 (List.of_mem_zip hp).2)
+
+example : (⟨[3, -4]⟩ : Fit ℚ).wvalues.length = ([1, -2] : List ℚ).length ∧ ∀ w ∈ ([1, -2] : List ℚ), w ≠ 0 := by
+  decide
+
+end CloneField
+
+section CloneRounded
+
+/-- the doubles -0.7, 1.3 (weights) and 0.1, 0.7 (values) of the round-7 reproducer -/
+def wWit : List R64 := [⟨-(3152519739159347 / 4503599627370496)⟩, ⟨5854679515581645 / 4503599627370496⟩]
+def vWit : List R64 := [⟨3602879701896397 / 36028797018963968⟩, ⟨3152519739159347 / 4503599627370496⟩]
+
+/-- Under binary64 rounding a clone rebuilt through `values` computed with inverse weights is NOT the original:
+weights (-0.7, 1.3), values (0.1, 0.7): the second weighted value 0.9099999999999999 comes back as
+0.9099999999999998; the clone is not equal, is smaller, and is dominated by its original. -/
+theorem recloneInv_witness :
+    (setValues wWit vWit).bind (fun f => (recloneInv ⟨1⟩ wWit f).map
+      (fun g => (eq g f, lt g f, dominates f g [0, 1] [0, 1], eq (deepcopy f) f))) = some (false, true, true, true) := by
+  decide +kernel
+
+/-- Even with the true division the round trip `(x / w) * w` is not the identity on doubles: weight 49.0,
+value 0.020408163265306124, weighted value exactly 1.0, rebuilt 0.9999999999999999. -/
+theorem reclone_witness :
+    (setValues [(⟨49⟩ : R64)] [⟨2941126287262365 / 144115188075855872⟩]).bind (fun f => (reclone [⟨49⟩] f).map
+      (fun g => (f.wvalues, eq g f, lt g f, eq (deepcopy f) f))) = some ([⟨1⟩], false, true, true) := by
+  decide +kernel
+
+/-- ... so the hypothesis of `clone_no_recompute` fails there: `(1.0 / 49.0) * 49.0 ≠ 1.0` in binary64. -/
+theorem r64_div_mul_ne : ((⟨1⟩ : R64) / ⟨49⟩) * ⟨49⟩ ≠ ⟨1⟩ := by decide +kernel
+
+end CloneRounded
+
 /-! ### Non-vacuity: concrete instances of the hypotheses above -/
 
 example : violates (⟨[], some [1, 0]⟩ : CFit Int) = true ∧ violates (⟨[], some [1, -1]⟩ : CFit Int) = false ∧
